@@ -7,7 +7,7 @@ from ovc import worlds
 from ovc import cutloops
 
 
-N_RANDOM = 12
+N_RANDOM = 60
 
 
 class Ctx:
